@@ -807,9 +807,12 @@ def handleEnd (ds : DS) (j : Json) : IO DS := do
     for a in depositors do
       back := Coins.add back (Coins.sub (Coins.sub (ds.ledger.bal a) (pre.l.bal a)) (unbonded a))
     let total := released.foldl (fun acc d => Coins.add acc d.amount) ([] : Coins)
-    if !Coins.beq total (Coins.add back burned) then
+    -- (a claim payout undelegates providers' shares, which makes the distribution module pay them their staking rewards in this
+    --  same end-blocker: a provider who is also a depositor then receives more than the refund)
+    if paidTotal > 0 then ds := stat ds "sit.c11.refund_check_skipped_payout_block"
+    if paidTotal == 0 && !Coins.beq total (Coins.add back burned) then
       ds ← finding ds "monitor" "C11" "refund_or_burn_exact" s!"released={Coins.toStr total} returned={Coins.toStr back} burned={Coins.toStr burned} proposals={finalised.map (·.id)}"
-    if Coins.isZero burned then
+    if Coins.isZero burned && paidTotal == 0 then
       for a in depositors do
         let mine := (released.filter (·.depositor == a)).foldl (fun acc d => Coins.add acc d.amount) ([] : Coins)
         let got := Coins.sub (Coins.sub (ds.ledger.bal a) (pre.l.bal a)) (unbonded a)
